@@ -21,42 +21,86 @@ package openapi3filter
 //@ ghost var reqOK bool
 //@ ghost var respOK bool
 
-// ---- user callbacks (assumed; A3) ----
+// ---- user callbacks (assumed; A3: they do not mutate the validator, its options or the router) ----
 
 // The wrapped handler: runs once per call; it reaches the client only through the writer it is
-// given. For the strict wrapper every method leaves the client state unchanged (proved below),
-// hence so does the handler; what it wrote is recorded in hStrict*.
+// given (it may also mutate the request). For the strict wrapper every method leaves the client
+// state unchanged (proved below), hence so does the handler; what it wrote is recorded in
+// hStrict*. The client state when it returns is recorded in hPost*.
+//@ ghost var hPostHdr map[ref]bool
+//@ ghost var hPostCode map[ref]int
+//@ ghost var hPostBody map[ref]seqbyte
 //@ iface (http.Handler).ServeHTTP (self, w, r)
-//@   modifies *
-//@   modifies handlerCalls, hStrictStatus, hStrictWritten, hStrictBody, cliHdr, cliCode, cliBody
+//@   requires typeof(w) == type *strictResponseWrapper ==> (w.(*strictResponseWrapper) != nil && strictInv(w.(*strictResponseWrapper)) && external(w.(*strictResponseWrapper).w))
+//@   requires typeof(w) == type *warnResponseWrapper ==> (w.(*warnResponseWrapper) != nil && warnInv(w.(*warnResponseWrapper)))
+//@   modifies strictResponseWrapper.status, strictResponseWrapper.headerWritten, warnResponseWrapper.status, warnResponseWrapper.headerWritten, bytes.Buffer.*, http.Request.*
+//@   modifies handlerCalls, hStrictStatus, hStrictWritten, hStrictBody, hPostHdr, hPostCode, hPostBody, cliHdr, cliCode, cliBody
 //@   ensures handlerCalls == old(handlerCalls) + 1
+//@   ensures hPostHdr == cliHdr && hPostCode == cliCode && hPostBody == cliBody
 //@   ensures typeof(w) == type *strictResponseWrapper ==> unchanged(cliHdr, cliCode, cliBody)
-//@   ensures typeof(w) == type *strictResponseWrapper ==> w.(*strictResponseWrapper).w == old(w.(*strictResponseWrapper).w)
 //@   ensures typeof(w) == type *strictResponseWrapper ==> hStrictStatus == w.(*strictResponseWrapper).status && hStrictWritten == w.(*strictResponseWrapper).headerWritten && hStrictBody == bufContent(emb(w.(*strictResponseWrapper), body))
 //@   ensures typeof(w) == type *strictResponseWrapper ==> strictInv(w.(*strictResponseWrapper))
+//@   ensures typeof(w) == type *warnResponseWrapper ==> warnInv(w.(*warnResponseWrapper))
 
 // Representation invariant of the strict wrapper, preserved by each of its methods (proved):
 // a recorded header implies a status that net/http accepts whenever the handler only passes
 // valid codes (requires of WriteHeader).
 //@ spec strictInv(wr *strictResponseWrapper) bool := wr.headerWritten ==> (100 <= wr.status && wr.status <= 999)
 
+// The error callback answers the client itself; the client state before and after it are
+// recorded so that post-conditions can say "nothing else reached the client".
 //@ fnfield ErrFunc (ctx, w, status, code, err)
-//@   modifies *
 //@   modifies errCalls, lastErrStatus, lastErrCode, errPreHdr, errPreCode, errPreBody, errPostHdr, errPostCode, errPostBody, cliHdr, cliCode, cliBody
 //@   ensures errCalls == old(errCalls) + 1 && lastErrStatus == status && lastErrCode == code
 //@   ensures errPreHdr == old(cliHdr) && errPreCode == old(cliCode) && errPreBody == old(cliBody)
 //@   ensures errPostHdr == cliHdr && errPostCode == cliCode && errPostBody == cliBody
 
 //@ fnfield LogFunc (ctx, message, err)
-//@   modifies *
+//@   modifies nothing
 
-// ---- request/response validation as seen by the middleware: verdict recorded, nothing assumed ----
+// ---- request/response validation as seen by the middleware: the verdict is recorded, nothing
+// is assumed about it. That they leave the validator and the wrappers alone and never run the
+// handler or the error callback is proved by the call-graph scan (preserves).
 //@ func ValidateRequest
 //@   modifies *
+//@   preserves @C14 Validator.strict, Validator.errFunc, Validator.logFunc, Validator.router, strictResponseWrapper.*, warnResponseWrapper.*
+//@   preserves @C14 handlerCalls, errCalls, cliHdr, cliCode, cliBody
 //@   records reqOK := (result == nil)
 //@ func ValidateResponse
 //@   modifies *
+//@   preserves @C14 Validator.strict, Validator.errFunc, Validator.logFunc, Validator.router, strictResponseWrapper.*, warnResponseWrapper.*, bytes.Buffer.*, []byte
+//@   preserves @C14 handlerCalls, errCalls, cliHdr, cliCode, cliBody
 //@   records respOK := (result == nil)
+
+// The wrapped handler is the user's: not one of this package's own handlers (nesting them is
+// outside the proof, as for the writers).
+//@ spec userHandler(h http.Handler) bool := h != nil && typeof(h) != type *ValidationHandler
+
+// ---- the middleware itself ----
+//@ spec strictMode(v *Validator) bool := v.strict
+//@ func (*Validator).Middleware$1
+//@   requires v != nil && r != nil && r.URL != nil && external(w)
+//@   requires userHandler(h) && v.router != nil && v.logFunc != nil && v.errFunc != nil
+//@   modifies *
+//@   modifies handlerCalls, hStrictStatus, hStrictWritten, hStrictBody, hPostHdr, hPostCode, hPostBody
+//@   modifies errCalls, lastErrStatus, lastErrCode, errPreHdr, errPreCode, errPreBody, errPostHdr, errPostCode, errPostBody
+//@   modifies cliHdr, cliCode, cliBody, reqOK, respOK, isTee, teeFirst, teeSecond
+//@   ensures [no-route] !routeFound(r) ==> handlerCalls == old(handlerCalls) && errCalls == old(errCalls) + 1 && lastErrStatus == 404 && lastErrCode == ErrCodeCannotFindRoute
+//@   ensures [bad-request] routeFound(r) && !reqOK ==> handlerCalls == old(handlerCalls) && errCalls == old(errCalls) + 1 && lastErrStatus == 400 && lastErrCode == ErrCodeRequestInvalid
+//@   ensures [handler-runs-once] routeFound(r) && reqOK ==> handlerCalls == old(handlerCalls) + 1
+//@   ensures [rejections-touch-client-only-through-errFunc] (!routeFound(r) || !reqOK) ==> errPreHdr == old(cliHdr) && errPreCode == old(cliCode) && errPreBody == old(cliBody) && cliHdr == errPostHdr && cliCode == errPostCode && cliBody == errPostBody
+//@   ensures [strict-invalid-shields-client] old(strictMode(v)) && routeFound(r) && reqOK && !respOK ==>
+//@        errCalls == old(errCalls) + 1 && lastErrStatus == 500 && lastErrCode == ErrCodeResponseInvalid
+//@     && errPreHdr == old(cliHdr) && errPreCode == old(cliCode) && errPreBody == old(cliBody)
+//@     && cliHdr == errPostHdr && cliCode == errPostCode && cliBody == errPostBody
+//@   ensures [strict-valid-flushes-exactly] old(strictMode(v)) && routeFound(r) && reqOK && respOK ==>
+//@        errCalls == old(errCalls)
+//@     && cliHdr == store(old(cliHdr), ptr(w), true)
+//@     && (!old(cliHdr)[ptr(w)] ==> cliCode == store(old(cliCode), ptr(w), hStrictWritten ? hStrictStatus : 200))
+//@     && cliBody == store(old(cliBody), ptr(w), concat(old(cliBody)[ptr(w)], hStrictBody))
+//@   ensures [non-strict-pass-through] !old(strictMode(v)) && routeFound(r) && reqOK ==>
+//@        errCalls == old(errCalls) && cliHdr == hPostHdr && cliCode == hPostCode && cliBody == hPostBody
+//@   tag C14
 
 // ---- strict wrapper ----
 
@@ -112,4 +156,101 @@ package openapi3filter
 //@   ensures cliHdr == store(old(cliHdr), ptr(wr.w), true)
 //@   ensures !old(cliHdr)[ptr(wr.w)] ==> cliCode == store(old(cliCode), ptr(wr.w), wr.status)
 //@   ensures cliBody == store(old(cliBody), ptr(wr.w), concat(old(cliBody)[ptr(wr.w)], bufContent(emb(wr, body))))
+//@   tag C14
+
+// ---- warn wrapper: every call has, on the client, exactly the effect of the same call on w ----
+
+// Representation invariant: once the wrapper has recorded a header, the client has one too.
+//@ spec warnInv(wr *warnResponseWrapper) bool :=
+//@     external(wr.w) && wr.tee != nil && isTee[ptr(wr.tee)] && teeFirst[ptr(wr.tee)] == ptr(wr.w)
+//@  && typeof(wr.tee) != type *strictResponseWrapper && typeof(wr.tee) != type *warnResponseWrapper
+//@  && (wr.headerWritten ==> cliHdr[ptr(wr.w)])
+
+//@ func newWarnResponseWrapper
+//@   requires external(w)
+//@   modifies isTee, teeFirst, teeSecond
+//@   ensures result != nil && fresh(result) && result.w == w && !result.headerWritten && result.status == 0
+//@   ensures warnInv(result)
+//@   ensures unchanged(cliHdr, cliCode, cliBody)
+//@   tag C14
+
+//@ func (*warnResponseWrapper).WriteHeader
+//@   requires wr != nil && warnInv(wr)
+//@   requires 100 <= status && status <= 999
+//@   requires wr.headerWritten ==> (100 <= wr.status && wr.status <= 999)
+//@   modifies wr.status, wr.headerWritten, cliHdr, cliCode, cliBody
+//@   ensures cliWriteHeaderEffect(ptr(wr.w), status)
+//@   ensures wr.headerWritten && wr.status == (old(wr.headerWritten) ? old(wr.status) : status)
+//@   ensures warnInv(wr)
+//@   tag C14
+
+//@ func (*warnResponseWrapper).Write
+//@   requires wr != nil && warnInv(wr)
+//@   requires wr.headerWritten ==> (100 <= wr.status && wr.status <= 999)
+//@   modifies wr.status, wr.headerWritten, cliHdr, cliCode, cliBody, bytes.Buffer.*
+//@   ensures cliWriteEffect(ptr(wr.w), bytes(b))
+//@   ensures warnInv(wr)
+//@   tag C14
+
+//@ func (*warnResponseWrapper).Header
+//@   requires wr != nil && external(wr.w)
+//@   modifies nothing
+//@   ensures unchanged(cliHdr, cliCode, cliBody)
+//@   ensures result == headerOf(ptr(wr.w))
+//@   tag C14
+
+//@ func (*warnResponseWrapper).flushBodyContents
+//@   modifies nothing
+//@   ensures unchanged(cliHdr, cliCode, cliBody) && result == nil
+//@   tag C14
+
+//@ func (*warnResponseWrapper).statusCode
+//@   requires wr != nil
+//@   modifies nothing
+//@   ensures result == wr.status
+//@   tag C14
+
+//@ func (*warnResponseWrapper).bodyContents
+//@   requires wr != nil
+//@   modifies nothing
+//@   ensures unchanged(cliHdr, cliCode, cliBody)
+//@   tag C14
+
+// ---- ValidationHandler (request-only gate) ----
+//@ ghost var encCalls int
+//@ ghost var vhOK bool
+//@ fnfield ErrorEncoder (ctx, err, w)
+//@   modifies encCalls, cliHdr, cliCode, cliBody
+//@   ensures encCalls == old(encCalls) + 1
+
+//@ func (*ValidationHandler).validateRequest
+//@   modifies *
+//@   preserves @C14 ValidationHandler.Handler, ValidationHandler.ErrorEncoder, ValidationHandler.router
+//@   preserves @C14 handlerCalls, encCalls, cliHdr, cliCode, cliBody
+//@   records vhOK := (result == nil)
+
+//@ func (*ValidationHandler).before
+//@   requires h != nil && h.ErrorEncoder != nil && r != nil
+//@   modifies *
+//@   modifies vhOK, encCalls, cliHdr, cliCode, cliBody
+//@   ensures result == !vhOK
+//@   ensures vhOK ==> encCalls == old(encCalls) && unchanged(cliHdr, cliCode, cliBody)
+//@   ensures !vhOK ==> encCalls == old(encCalls) + 1
+//@   ensures h.Handler == old(h.Handler)
+//@   tag C14
+
+//@ func (*ValidationHandler).ServeHTTP
+//@   requires h != nil && h.ErrorEncoder != nil && userHandler(h.Handler) && r != nil && external(w)
+//@   modifies *
+//@   modifies vhOK, encCalls, cliHdr, cliCode, cliBody, handlerCalls, hStrictStatus, hStrictWritten, hStrictBody, hPostHdr, hPostCode, hPostBody
+//@   ensures [handler-iff-valid] handlerCalls == old(handlerCalls) + (vhOK ? 1 : 0)
+//@   ensures [error-answered-once] encCalls == old(encCalls) + (vhOK ? 0 : 1)
+//@   tag C14
+
+//@ func (*ValidationHandler).Middleware$1
+//@   requires h != nil && h.ErrorEncoder != nil && userHandler(next) && r != nil && external(w)
+//@   modifies *
+//@   modifies vhOK, encCalls, cliHdr, cliCode, cliBody, handlerCalls, hStrictStatus, hStrictWritten, hStrictBody, hPostHdr, hPostCode, hPostBody
+//@   ensures [handler-iff-valid] handlerCalls == old(handlerCalls) + (vhOK ? 1 : 0)
+//@   ensures [error-answered-once] encCalls == old(encCalls) + (vhOK ? 0 : 1)
 //@   tag C14
